@@ -119,3 +119,52 @@ pub fn stranded(ex: &Exec) -> Vec<usize> {
     let pend: HashSet<usize> = v.pending_free.iter().copied().collect();
     (0..v.refcounts.len()).filter(|i| !v.freed[*i] && !reach.contains(i) && !pend.contains(i)).collect()
 }
+
+/// Is the repair of F17 (`release_dead_roots`) present in the source under test?
+pub fn dead_roots_repaired() -> bool {
+    std::fs::read_to_string(format!("{}/quiver-core/src/executor.rs", qverif::repo()))
+        .map(|t| t.contains("fn release_dead_roots"))
+        .unwrap_or(false)
+}
+
+fn mentions_heap(v: &quiver_core::value::Value) -> bool {
+    use quiver_core::value::{Binary, Value};
+    match v {
+        Value::Binary(Binary::Heap(_)) => true,
+        Value::Tuple(_, fs) | Value::Function(_, fs) => fs.iter().any(mentions_heap),
+        _ => false,
+    }
+}
+
+/// F17: heap binaries a FINISHED process still roots besides its result (operands beneath the
+/// result, and - if it cannot be resumed - locals, mailbox, select state, awaited results).
+/// Returns a description of the first such root.
+pub fn dead_roots(ex: &Exec) -> Option<String> {
+    for pid in ex.verif_process_ids() {
+        let Some(p) = ex.get_process(pid) else { continue };
+        if p.result.is_none() || !p.frames.is_empty() {
+            continue;
+        }
+        if p.stack.iter().any(mentions_heap) {
+            return Some(format!("finished process {pid}: {} operand(s) left on the stack hold heap binaries", p.stack.len()));
+        }
+        if p.persistent {
+            continue;
+        }
+        if p.locals.iter().any(mentions_heap) {
+            return Some(format!("finished process {pid}: locals hold heap binaries"));
+        }
+        if p.mailbox.iter().any(mentions_heap) {
+            return Some(format!("finished process {pid}: {} unreceivable message(s) in the mailbox hold heap binaries", p.mailbox.len()));
+        }
+        if let Some(st) = &p.select_state
+            && (st.sources.iter().any(mentions_heap) || st.receiving.iter().any(|(_, m)| mentions_heap(m)))
+        {
+            return Some(format!("finished process {pid}: select state holds heap binaries"));
+        }
+        if p.awaiting.values().flatten().any(mentions_heap) {
+            return Some(format!("finished process {pid}: stored awaited results hold heap binaries"));
+        }
+    }
+    None
+}
